@@ -6,6 +6,7 @@ from cvh import gen, ir as IR, oracle, treeprop as TP
 
 ID = "C08"
 LEVEL = "exploration"
+FUZZ_SECONDS = 240  # thorough tier: 8 parallel Atheris processes driving this module's strategy
 BUDGET = {"quick": 12000, "thorough": 200000}
 WALL = {"quick": 220, "thorough": 2400}
 MIN_CASES = {"quick": 1500, "thorough": 15000}
